@@ -1,6 +1,8 @@
 // Positive controls for rules whose expected count on jsoncons is zero: each construct below MUST be
 // found by the corresponding detector on every run (otherwise the detector is broken, exit 2).
 #include <string>
+#include <memory>
+#include <vector>
 namespace jcsa_control {
 struct with_mutable { mutable int cache_ = 0; int get() const { return ++cache_; } };
 inline int& handed_out_static() { static int counter = 0; return counter; }
@@ -8,5 +10,6 @@ inline char* cast_away(const char* p) { return const_cast<char*>(p); }
 struct node { int v = 0; void bump() { ++v; } int peek() const { return v; } };
 struct holder { node* n_ = nullptr; void deep_const_breach() const { n_->bump(); } int fine() const { return n_->peek(); } };
 inline int* raw_new_control() { return new int(7); }
+inline void release_into_container(std::vector<std::unique_ptr<int>>& v) { std::unique_ptr<int> p(new int(1)); v.emplace_back(p.release()); }
 inline std::size_t written_static(const std::string& x) { static std::string scratch; scratch.assign(x); return scratch.size(); }
 }
